@@ -238,6 +238,7 @@ type replayFile struct {
 	Sub      string          `json:"sub"`
 	Error    string          `json:"error,omitempty"`
 	Sig      string          `json:"sig,omitempty"`
+	Kind     string          `json:"kind,omitempty"` // "violation" or "harness"
 	Scenario json.RawMessage `json:"scenario"`
 }
 
@@ -256,9 +257,10 @@ func writeFail(prop, sub string, scJSON []byte, err error) string {
 		return path
 	}
 	bestFail[k] = len(scJSON)
-	rf := replayFile{Property: prop, Sub: sub, Error: err.Error(), Scenario: scJSON}
+	rf := replayFile{Property: prop, Sub: sub, Error: err.Error(), Scenario: scJSON, Kind: "harness"}
 	if v, ok := err.(*Violation); ok {
 		rf.Sig = v.Sig
+		rf.Kind = "violation"
 	}
 	b, _ := json.MarshalIndent(rf, "", " ")
 	os.WriteFile(path, b, 0o644)
